@@ -130,6 +130,10 @@ Definition url_taglist (plain : bool) (r : reference) : str :=
   url_repo_base plain r ++ b "/tags/list".
 Definition url_upload (plain : bool) (r : reference) : str :=
   url_repo_base plain r ++ b "/blobs/uploads/".
+Definition url_base (plain : bool) (r : reference) : str :=
+  scheme plain ++ b "://" ++ host_of (r_registry r) ++ b "/v2/".
+Definition url_catalog (plain : bool) (r : reference) : str :=
+  scheme plain ++ b "://" ++ host_of (r_registry r) ++ b "/v2/_catalog".
 
 (* Generic URL syntax (RFC 3986 section 3, what net/url implements):
      scheme ":" "//" authority path-abempty [ "?" query ] [ "#" fragment ]
